@@ -7,8 +7,9 @@ CONSTANTS
   Places = {"global"}
   Derive = TRUE
   Pair = FALSE
+  Threads = TRUE
   Defects = {}
   EmitCases = FALSE
-INVARIANTS TypeOK InvNoDangling InvFaithful InvChildLive InvNoResidue
+INVARIANTS TypeOK InvNoDangling InvFaithful InvChildLive InvNoResidue InvNoInflight
 CHECK_DEADLOCK FALSE
 VIEW DesignView
